@@ -466,7 +466,11 @@ def emit_fn(data, it, ckey, C, tlog, anchors_used, canary=False):
                 if len(c["args"]) != 1:
                     raise Undecided("T17: `%s` call with %d arguments in %s" % (c["name"], len(c["args"]), it["path"]))
                 a = c["args"][0]
-                ed.insert(a["start"], "vx_note(", order=-2)
+                recv = data[c["recv"]["start"]:c["recv"]["end"]].decode() if c.get("recv") else ""
+                if not re.match(r"^[A-Za-z_][A-Za-z0-9_]*(\s*\.\s*[A-Za-z_][A-Za-z0-9_]*)*$", recv):
+                    # the receiver is named twice in the rewritten call, so it must be a plain place expression
+                    raise Undecided("unsupported construct: receiver `%s` of effectful call `%s` in %s is not a plain path" % (recv[:60], c["name"], it["path"]))
+                ed.insert(a["start"], "vx_note(&%s, " % re.sub(r"\s+", "", recv), order=-2)
                 ed.insert(a["end"], ", Tracked(vx_log))", order=-2)
                 nw += 1
             elif c["name"] in pass_names:
@@ -475,7 +479,7 @@ def emit_fn(data, it, ckey, C, tlog, anchors_used, canary=False):
                 ed.insert(c["args"][-1]["end"], ", Tracked(vx_log)", order=-2)
                 npass += 1
         tlog.append({"t": "T17", "item": it["path"], "wrapped_calls": nw, "passed_on": npass,
-                     "note": "ghost effect log threaded through the signature; message arguments of %s wrapped in vx_note (run-time identity)" % sorted(eff_names)})
+                     "note": "ghost effect log threaded through the signature; message arguments of %s wrapped in vx_note(&RECEIVER, ARG, log) (run-time identity on ARG; the receiver must be a plain field path / local)" % sorted(eff_names)})
     for fi in C.flag(ckey, "foriter"):
         n = int(fi[0]); nm = fi[1]
         if n not in loops or loops[n]["kind"] != "for":
